@@ -48,6 +48,119 @@ func init() {
 					x.check(ok, "caller="+prog.FnName(c.Parent())+" of="+m+" doc(any)", x.pos(c), "derived state written under the document lock", "a row derived from the change log is written without the document lock (it can belong to the epoch before a compaction): "+why)
 				}
 			}
+			// the ServerSeq a rebuild is made for, when it is taken from a DocInfo row, is taken from a row read
+			// under the document lock: read before the lock, a compaction can reset the log in between, the
+			// rebuild then labels the one-change log of the new generation with the old ServerSeq and leaves
+			// that document in the snapshot cache, from where later rebuilds skip the changes below it
+			if dSeq := x.P.Field(dbPkg + ".DocInfo.ServerSeq"); dSeq != nil && build != nil {
+				docInfoT := x.P.Named(dbPkg + ".DocInfo")
+				yieldsRow := func(t types.Type) bool {
+					var has func(t types.Type, d int) bool
+					has = func(t types.Type, d int) bool {
+						if d > 3 {
+							return false
+						}
+						switch u := t.(type) {
+						case *types.Pointer:
+							return has(u.Elem(), d+1)
+						case *types.Slice:
+							return has(u.Elem(), d+1)
+						case *types.Tuple:
+							for i := 0; i < u.Len(); i++ {
+								if has(u.At(i).Type(), d+1) {
+									return true
+								}
+							}
+							return false
+						}
+						return isNamed(t, docInfoT)
+					}
+					return has(t, 0)
+				}
+				type origin struct {
+					read ssa.CallInstruction
+					pm   *ssa.Parameter
+				}
+				var origins func(v ssa.Value, seen map[ssa.Value]bool) []origin
+				origins = func(v ssa.Value, seen map[ssa.Value]bool) []origin {
+					var out []origin
+					prog.Reaches(v, func(w ssa.Value) bool {
+						if seen[w] {
+							return false
+						}
+						seen[w] = true
+						switch t := w.(type) {
+						case *ssa.Call:
+							if yieldsRow(t.Type()) {
+								out = append(out, origin{read: t})
+							}
+						case *ssa.Parameter:
+							out = append(out, origin{pm: t})
+						case *ssa.UnOp:
+							if ia, ok := t.X.(*ssa.IndexAddr); ok && t.Op == token.MUL {
+								out = append(out, origins(ia.X, seen)...)
+							}
+						}
+						return false
+					})
+					return out
+				}
+				var decide func(v ssa.Value, depth int) (bool, string, int)
+				decide = func(v ssa.Value, depth int) (bool, string, int) {
+					n := 0
+					for _, o := range origins(v, map[ssa.Value]bool{}) {
+						if o.read != nil {
+							n++
+							if ok, why := x.mustHold(o.read, "doc", "RW"); !ok {
+								return false, "row read at " + x.pos(o.read) + ": " + why, n
+							}
+							continue
+						}
+						fn := o.pm.Parent()
+						idx := -1
+						for i, p := range fn.Params {
+							if p == o.pm {
+								idx = i
+							}
+						}
+						if idx < 0 || fn.Object() == nil || depth >= 3 {
+							continue
+						}
+						fo, _ := fn.Object().(*types.Func)
+						if fo == nil {
+							continue
+						}
+						for _, c := range x.directCallers(fo) {
+							if c.Parent().Pkg == nil || !prog.IsProd(c.Parent().Pkg.Pkg.Path()) {
+								continue
+							}
+							args := c.Common().Args
+							if c.Common().IsInvoke() || idx >= len(args) {
+								continue
+							}
+							ok, why, m := decide(args[idx], depth+1)
+							n += m
+							if !ok {
+								return false, why, n
+							}
+						}
+					}
+					return true, "", n
+				}
+				for _, c := range x.directCallers(build) {
+					args := c.Common().Args
+					if len(args) < 4 || prog.LoadedField(args[3]) != dSeq {
+						continue
+					}
+					ok, why, n := decide(prog.FieldBase(args[3]), 0)
+					if n == 0 {
+						continue
+					}
+					x.check(ok, "caller="+prog.FnName(c.Parent())+" of=BuildInternalDocForServerSeq serverSeq-from-row-read-under-doc-lock", x.pos(c),
+						"the row whose ServerSeq the rebuild is made for is read under the document lock",
+						"the document is rebuilt for the ServerSeq of a row read before the document lock was taken: a compaction can reset the log in between; the rebuild then applies the new generation's single change, labels the result with the old ServerSeq and leaves it in the snapshot cache, and every later rebuild for a ServerSeq at or above it skips the changes below: "+why)
+				}
+			}
 			// a re-validation of the epoch (DocInfo.Epoch of a freshly read row compared with the one the work was
 			// started for) only means something if the row is read while the document lock is held: read before the
 			// lock, a compaction can commit between the comparison and the lock
